@@ -50,7 +50,7 @@ func init() {
 				panic(pathEnd{"assume", "assumption false"})
 			}
 			if !c.IsTrue() {
-				if in.feasible(c) == Unsat {
+				if in.dpos >= len(in.decisions) && in.feasible(c) == Unsat {
 					panic(pathEnd{"assume", "assumption infeasible"})
 				}
 				in.assume(c)
